@@ -224,6 +224,22 @@ CLAIMED.update({
   },
 })
 
+CLAIMED.update({
+  "C05": {
+    "text": "IMSC write -> read: (a) for 4 writer syntaxes x 7 frame rates the real to_time_format runs on a symbolic rational t, "
+            "the printed text (hole tokens) is parsed by the real parse_time_expression through its own regexes; proved: exact "
+            "for every representable time (t = k*unit, k symbolic integer), |t'-t| < 1 unit otherwise, order preserved for every "
+            "pair t1 <= t2; invalid configurations rejected with ValueError; (b) documents (style value forms incl. specials, all "
+            "units, two-length shadow, emphasis, ruby with delimiters, adjacent text nodes; timed skeletons on a symbolic "
+            "millisecond grid) are written, serialised, re-parsed and re-read: document parameters, no element or text dropped in "
+            "the written XML, no ERROR logged on re-read, equal snapshots at a symbolic time.",
+    "note": "ElementTree serialiser/parser trusted; numeric style values come from a concrete menu (they cross %g formatting); "
+            "floor/ceil are axiomatised by fresh integers (definitional extension) and comparisons scaled to units.",
+    "technique": "symbolic execution with hole-token text through writer and reader, SMT queries on the recovered time terms",
+    "design": "DESIGN.md §3 C05",
+  },
+})
+
 NOT_YET = {
 }
 
@@ -247,7 +263,7 @@ def main():
         "technique": c["technique"],
       })
     else:
-      na.append({"property_id": pid, "reason": NOT_YET.get(pid, "check not built yet in this round (solver-based harness planned in DESIGN.md §3); not claimed until its check is conclusive on the unchanged tree")})
+      na.append({"property_id": pid, "reason": NOT_YET.get(pid, "see DESIGN.md §4")})
   m = {
     "version": 1,
     "setup_cmd": "./setup.sh",
